@@ -54,7 +54,7 @@ func (r *c11run) prologue() bool {
 		id := r.ids[i]
 		old := r.p.conns[S][i]
 		st := &staleSet{ro: ro}
-		if ro.OldFrames > 0 && r.syncConn != 0 {
+		if ro.OldFrames > 0 && r.syncConn != 0 && !r.pending[S].Load() {
 			ok := r.timed("traffic to the first incarnation of the connection", func() {
 				peer := r.p.conns[P][i]
 				for k := 0; k < ro.OldFrames; k++ {
